@@ -62,7 +62,6 @@ static void run_child(const char* self, double R0, double Rmax, int nr_exp, int 
 static int mode_gen(const char* self, int thin)
 {
     Rng rng(seed_from_env());
-    const double Rmax = 1.3;
     int count = 0;
     for (double R0 : {1e-5, 0.1})
         for (int nr_exp = 2; nr_exp <= 8; nr_exp++)
@@ -72,17 +71,19 @@ static int mode_gen(const char* self, int thin)
                         for (int rc = 0; rc < 9; rc++) {
                             if (thin > 1 && (int)(rng.next() % thin) != 0) continue;
                             if (nr_exp + div > 8) continue;
+                            // the outer radius varies too (the refinement positions below scale with it); 1.3 is the default of the options
+                            const double Rmax = rng.pick(std::vector<double>{1.3, 1.3, 1.0, 2.5});
                             double refr;
                             switch (rc) {
                             case 0: refr = 0.0; break; // the command-line default (below R0)
                             case 1: refr = R0; break;
                             case 2: refr = R0 + 0.04 * (Rmax - R0); break;
                             case 3: refr = R0 + 0.15 * (Rmax - R0); break;
-                            case 4: refr = 0.66; break;
-                            case 5: refr = 0.92053; break; // 0.7081 * Rmax
-                            case 6: refr = 1.29; break;
+                            case 4: refr = R0 + 0.5077 * (Rmax - R0); break; // not the exact midpoint: floor(nr * fraction) is discontinuous there and the model's exact fraction need not round like the double
+                            case 5: refr = 0.7081 * Rmax; break;
+                            case 6: refr = Rmax - 0.01; break;
                             case 7: refr = Rmax; break;
-                            default: refr = 2.0; break; // above Rmax
+                            default: refr = Rmax + 0.7; break; // above Rmax
                             }
                             run_child(self, R0, Rmax, nr_exp, nt_exp, refr, aniso, div);
                             count++;
